@@ -98,10 +98,8 @@ def probe_paint(H):
     not with default paint: a stroked open subpath of a fill-less path must survive."""
     pathdata.install(H)
     paint = dict(fill="none", stroke="black", stroke_width=2.0, stroke_opacity=0.5, opacity=0.75, fill_opacity=0.25, fill_rule="evenodd", display="inline", style="font-size: 3px")
-    x = H.reals("c", 10)
-    segs = [("M", (x[0], x[1])), ("L", (x[2], x[3])), ("M", (x[4], x[5])), ("L", (x[6], x[7])), ("L", (x[8], x[9])), ("Z", ())]
-    d = f"M{x[0]},{x[1]} L{x[2]},{x[3]} M{x[4]},{x[5]} L{x[6]},{x[7]} L{x[8]},{x[9]} Z" if H.mode == "concrete" else None
-    path = _native_or_sym_path(H, d, segs, **paint)
+    # the coordinates play no role in which paint the probe carries: concrete data keeps this to a single path
+    path = SVGPath(d="M0,0 L10,0 M20,0 L30,10 L20,10 Z", **paint) if H.mode == "concrete" else H.call(SVGPath, d="M0,0 L10,0 M20,0 L30,10 L20,10 Z", **paint)
     probes = []
 
     def rec(shape_self, *a, **k):
